@@ -19,6 +19,15 @@ CLAIMS = {
    "equals the one-shot result on the concatenation; same for HmacContext (any prior use, any key). Proved by an invariant over update and a refinement from the concrete array/counter model. "
    "Correspondence: operation histories on one C++ object (all two-way splits to 3B+5, multi-way splits with empty chunks, fixed chunk sizes B-1/B/B+1, reuse and abandoned cycles).",
    note="Bounds as C01/C02.", ref="DESIGN.md 7/C03"),
+ "C04": dict(text="Theorems C04_rfc8018, C04_buffer_form, C04_pepper: the vector-returning PBKDF2 model (one-shot HMAC, N.iter loop with the (u,t) pair, last block truncated to r) equals RFC 8018 "
+   "DK = T_1..T_l<0..dkLen-1> for every password, non-empty salt, 1 <= c <= limit, 1 <= dkLen <= (2^32-1)hLen and the three PRFs (output length = dkLen); the caller-buffer implementation, which is separate code "
+   "over the streaming HmacContext, is PROVED to produce the same blocks (via C03) and to accept exactly when additionally |salt| >= 16; the peppered form = PBKDF2(HMAC(pepper,password)). "
+   "Correspondence: 9 vector/locked/stored-parameter forms, 4-8 caller-buffer/array forms with canaries, pepper forms; |P| in {0,<B,=B,>B}, salts on padding boundaries of S||INT(i), dkLen around multiples of hLen and > 255 blocks.",
+   note="Bounds: |P| < 2^61, |S| < 2^60. The model runs ~2 ms per compression, so corpus iteration counts are small (<= 50 quick, 4096 thorough); the theorem has no such bound.", ref="DESIGN.md 7/C04"),
+ "C05": dict(text="Theorems C05_extract, C05_expand, C05_key_iv, C05_expand_rejects: the HKDF models (null/empty salt substitution, the previous/input/take loop, 44-byte split) equal RFC 5869 Extract / Expand "
+   "(first L bytes of T(1)||T(2)||..., exactly L bytes, for every 32-byte PRK, info and 0 <= L <= 8160; counter byte never exceeds 255) and the key/IV helper returns bytes 0-31 / 32-43. "
+   "Correspondence: 5 extract forms, 5 expand forms, 3 key/IV forms; L = 0, around multiples of 32, > 64, 8159, 8160; null info / null salt.",
+   note="Bounds: |IKM| < 2^61-128, |info| < 2^60.", ref="DESIGN.md 7/C05"),
  "C06": dict(text="Theorems C06_hotp, C06_totp, C06_clock, C06_truncation: the models of get_hotp_code / get_totp_code_at / get_totp_code and detail::hotp_from_digest equal RFC 4226 dynamic truncation of HMAC(key, 8-byte big-endian counter) mod 10^digits "
    "for every key, every counter below 2^64, digits 1..9 and the three hashes (result < 10^digits and < 2^31); TOTP(t,p) = HOTP(floor(t/p)) for every t < 2^64, p >= 1; the clock form equals the explicit form, negative/failing clock -> runtime_error; "
    "the shift/mask expression is proved equal to the big-endian value mod 2^31 (disjoint lor = add), the 9-entry divisor table = 10^d. Correspondence on five key-container forms with an interposed clock.",
